@@ -493,9 +493,12 @@ def _run(c, run, resume=None):
                 pass
             finally:
                 pre_state["on"] = False
-            # a new Pipeline object, as a later session would build it (the old one carries an ErrorSnapshot holding
-            # the raw function, which the standard pickler of a process pool cannot serialise for a closure)
-            p = build_pipeline(req, log, delay_seed=None if mode == "ctl" else run.get("seed", 0), pre_state=pre_state)
+            # either the SAME Pipeline object that just raised is run again (its PipeFuncs carry an ErrorSnapshot with
+            # the raw function: it must still be serialisable for a process pool), or a new one as a later session
+            # would build it
+            if not resume.get("same_pipeline"):
+                p = build_pipeline(req, log, delay_seed=None if mode == "ctl" else run.get("seed", 0),
+                                   pre_state=pre_state)
             prelog = log.read()
             mk = dict(cleanup=False, fixed=None if resume["fx"] is None else c06._fixed(resume["fx"]))
         elif lin:
@@ -729,14 +732,20 @@ def _stale_folder_case(rng, req, thorough):
             continue
         plan = [("process", "shared_memory_dict", "map"), ("process", "shared_memory_dict", "async"),
                 ("ctl", rng.choice(["shared_memory_dict", "file_array"]), rng.choice(["map", "async"]))]
+        if prefail:       # after a run that raised: also file_array on the process pool, both entry points
+            plan += [("process", "file_array", "map"), ("process", "file_array", "async")]
         if thorough:
             plan.append(("thread", "shared_memory_dict", rng.choice(["map", "async"])))
         if thorough:
             plan += [("process", "file_array", "map"), ("default", "shared_memory_dict", "map")]
-        for exec_, storage, entry in plan:
+        flip = rng.randrange(2)
+        for j, (exec_, storage, entry) in enumerate(plan):
             r_ = _uniform_run(rng, req, _random_pis(rng, sizes) if exec_ == "ctl" else [], storage, exec_, entry,
                               seed=rng.randrange(10 ** 6))
-            resume.append({"pre": pre, "fx": fx, "prefail": prefail or [], "run": r_})
+            # half of the runs after a raising run re-use the Pipeline object that raised, half build a new one;
+            # (shared, map) and (file, async) get one choice, (shared, async) and (file, map) the other
+            same = bool(prefail) and ((j + flip) % 2 == 0 if exec_ != "ctl" else rng.random() < 0.5)
+            resume.append({"pre": pre, "fx": fx, "prefail": prefail or [], "same_pipeline": same, "run": r_})
     return {"req": req, "gens": gens, "runs": [], "resume": resume}
 
 
@@ -986,7 +995,7 @@ def nontrivial_key(c):
             [v["sh"] if isinstance(v, dict) else 0 for _, v in c["req"]["inputs"]],
             [[sorted(r["stor"].items()), r["stor_form"], r["exec"], r["exec_form"], r["entry"], r["pis"],
               r.get("folder", True), r.get("eager")] for r in c["runs"]],
-            [[s_["pre"], s_["fx"], s_.get("prefail"), s_["run"]["exec"], s_["run"]["pis"], sorted(s_["run"]["stor"].items())]
+            [[s_["pre"], s_["fx"], s_.get("prefail"), bool(s_.get("same_pipeline")), s_["run"]["exec"], s_["run"]["pis"], sorted(s_["run"]["stor"].items())]
              for s_ in c.get("resume") or []])
 
 
@@ -1025,7 +1034,9 @@ def distribution(c):
     if any(r.get("slow_load") for r in runs):
         d["has slow-disk thread runs over file_array intermediates"] = _bucket(sum(1 for r in runs if r.get("slow_load")))
     for s_ in c.get("resume") or []:
-        kind = ("after a raising run" if s_.get("prefail") else "complete folder" if s_["pre"] == [None] else
+        kind = (("after a raising run, same Pipeline object" if s_.get("same_pipeline") else
+                 "after a raising run, new Pipeline object") if s_.get("prefail") else
+                "complete folder" if s_["pre"] == [None] else
                 ("resume after parts" if s_["fx"] is None else
                  ("fixed_indices on empty folder" if not s_["pre"] else "fixed_indices after a part")))
         d["existing store: " + kind + " / " + s_["run"]["exec"]] = "yes"
